@@ -148,6 +148,7 @@ EXTRA_MODULES = {
     "C01": ["Pdt.Props.C01Frag", "Pdt.Props.C01Ord", "Pdt.Props.Lemmas.Inline", "Pdt.Props.Lemmas.Rows", "Pdt.Props.Lemmas.Pointwise"],
     "C11": ["Pdt.Props.C11Frag"],
     "C08": ["Pdt.Props.C08Simple"],
+    "C09": ["Pdt.Props.C09Scope"],
     "C05": ["Pdt.Props.Lemmas.Sort", "Pdt.Props.Lemmas.Partition"],
     "C04": ["Pdt.Props.Lemmas.Partition"],
 }
